@@ -422,7 +422,7 @@ def install(mon, reach):
     reach.watch(E.time_evolution, "time_evolution")
     reach.watch(E.time_evolution_derivatives, "time_evolution_derivatives",
                 markers={"multi-step": r"repeated_circuit\s*=", "single-step": r"return single_trotter_derivatives"})
-    reach.watch(E._generate_circuit_sequence, "_generate_circuit_sequence")
+    reach.watch(getattr(E, "_generate_circuit_sequence", None), "_generate_circuit_sequence")
     mon.hook_func(E, "time_evolution_for_term", post=_post_term, name="time_evolution_for_term")
     mon.hook_func(E, "time_evolution", post=_post_sum, name="time_evolution")
     mon.hook_func(E, "time_evolution_derivatives", post=_post_deriv, name="time_evolution_derivatives")
